@@ -1,5 +1,6 @@
 From Coq Require Import ZArith QArith List String Bool.
 From FV Require Import Base.Ser Base.Res C17.Model.
+From FV Require C17.ModelReorder.
 Import ListNotations.
 Open Scope string_scope.
 Global Instance De_op : De op :=
@@ -16,6 +17,7 @@ Global Instance Ser_outv : Ser outv :=
 Definition run_ops (init : list name) (ops : list op) : list outv := snd (run (mkFont init None) ops).
 Definition reg : registry := [
   ("run_ops", run2 run_ops);
-  ("scale", run2 scale)
+  ("scale", run2 scale);
+  ("reorder_coverage", run3 ModelReorder.apply_rule)
 ].
 Definition fv_entry := dispatch reg.
